@@ -85,10 +85,18 @@ LinesRenderings(lines) ==
 NoteToks(notes) == IF notes = <<>> THEN <<>>
                    ELSE <<TNote(notes[1])>> \o [i \in 1..(Len(notes) - 1) |-> TCont(notes[i + 1])] \o <<TBlank>>
 
+\* several comment lines before a cue: one block with continuation lines, one block per line, or every line with the
+\* NOTE prefix of its own - all of them belong to the next cue
+NoteForms(notes) ==
+  IF Len(notes) < 2 THEN {NoteToks(notes)}
+  ELSE {NoteToks(notes),
+        FlattenSeq([i \in DOMAIN notes |-> <<TNote(notes[i]), TBlank>>]),
+        [i \in DOMAIN notes |-> TNote(notes[i])] \o <<TBlank>>}
+
 CueRenderings(c, V) ==
   LET ids == IF c.id # 0 THEN {<<TId(c.id)>>} ELSE {<<>>}
       tim == {<<TTiming(c, hrs, tab)>> : hrs \in (IF c.s >= 3600000 \/ c.e >= 3600000 THEN {TRUE} ELSE V.hrs), tab \in V.tabs}
-  IN  Cat(Cat({NoteToks(c.notes)}, Cat(ids, tim)), LinesRenderings(c.lines))
+  IN  Cat(Cat(NoteForms(c.notes), Cat(ids, tim)), LinesRenderings(c.lines))
 
 RECURSIVE CuesRenderings(_, _)
 CuesRenderings(cues, V) ==
